@@ -609,6 +609,12 @@ func (e *Exec) heapGet(key, sort string) string {
 		e.heapSort[key] = sort
 		// memory model: cells of objects that do not exist yet at function entry read as zero
 		// (Go zero-initialises allocations); ghost fields are exempt
+		if key == "map#dom" {
+			e.decls = append(e.decls, fmt.Sprintf("(assert (= (select %s 0) ((as const (Array Int Bool)) false)))", init)) // the nil map is empty
+		}
+		if key == "map#len" {
+			e.decls = append(e.decls, fmt.Sprintf("(assert (= (select %s 0) 0))", init))
+		}
 		if key == "elems:Ref" {
 			e.decls = append(e.decls, fmt.Sprintf("(assert (forall ((b!w Int) (i!w Int)) (! (<= (root (select (select %s b!w) i!w)) alloc0) :pattern ((select (select %s b!w) i!w)))))", init, init))
 		}
@@ -997,6 +1003,16 @@ func (e *Exec) mapDelete(m, k string) {
 	e.heapSet("map#len", SArrI, mkStore(e.heapGet("map#len", SArrI), m, mkIte(had, mkSub(oldLen, "1"), oldLen)))
 }
 
+// newMapT allocates an empty map of Go type t (maps of different types are different objects).
+func (e *Exec) newMapT(t types.Type) string {
+	m := e.newMap()
+	if t != nil {
+		e.declareFun("maptag", []string{SInt}, SInt)
+		e.addFact(mkEq(sx("maptag", m), mkInt(int64(e.g.typeID(t.Underlying())))))
+	}
+	return m
+}
+
 func (e *Exec) newMap() string {
 	m := e.allocRef("map")
 	domH := e.heapGet("map#dom", arrSort(SArrB))
@@ -1096,6 +1112,38 @@ func (e *Exec) merge(a, b *State) *State {
 	for _, k := range keys {
 		out.vars[k.k] = e.mergeVal(c, a.vars[k.k], b.vars[k.k], varHint(k.k))
 	}
+	// ghost path events recorded on one side only: "not called" on the other side
+	oneSided := func(x, y *State, xIsA bool) {
+		var ks []string
+		for k := range x.vars {
+			if s, ok := k.(string); ok {
+				if _, both := y.vars[k]; !both && isEventKey(s) {
+					ks = append(ks, s)
+				}
+			}
+		}
+		sort.Strings(ks)
+		for _, s := range ks {
+			v := x.vars[s]
+			var other Val
+			switch {
+			case strings.HasPrefix(s, "called:"):
+				other = bv(tFalse)
+			case strings.HasPrefix(s, "ncalls:"):
+				other = iv("0")
+			default:
+				out.vars[s] = v // argument/result of a call that did not happen on the other path: arbitrary there
+				continue
+			}
+			if xIsA {
+				out.vars[s] = e.mergeVal(c, v, other, s)
+			} else {
+				out.vars[s] = e.mergeVal(c, other, v, s)
+			}
+		}
+	}
+	oneSided(a, b, true)
+	oneSided(b, a, false)
 	hk := map[string]bool{}
 	for k := range a.heap {
 		hk[k] = true
@@ -1187,4 +1235,9 @@ func isTimeType(t types.Type) bool {
 	}
 	n, ok := t.(*types.Named)
 	return ok && n.Obj().Pkg() != nil && n.Obj().Pkg().Path() == "time" && n.Obj().Name() == "Time"
+}
+
+func isEventKey(s string) bool {
+	return strings.HasPrefix(s, "called:") || strings.HasPrefix(s, "ncalls:") || strings.HasPrefix(s, "ret:") || strings.HasPrefix(s, "arg:") ||
+		strings.HasPrefix(s, "sent:") || strings.HasPrefix(s, "closed:")
 }
